@@ -595,7 +595,7 @@ class Engine:
         if n == 0: return []
         o, off = s.resolve(st, ptr, n, what)
         if type(off) is not int:
-            off = s.concretize(st, off[1], 'buffer offset')
+            off = s.concretize(st, off[1], 'buffer offset', 16, representative=True)
         if o.arr is not None:
             return [s.arr_load(o, off + i, 1) for i in range(n)]
         return o.data[off:off + n]
@@ -606,7 +606,7 @@ class Engine:
         o, off = s.resolve(st, ptr, n, what)
         if o.ro: raise Violation('write-to-const', "write to constant object %s" % o.name, s.model_dict(st))
         if type(off) is not int:
-            off = s.concretize(st, off[1], 'buffer offset')
+            off = s.concretize(st, off[1], 'buffer offset', 16, representative=True)
         o = st.wobj(ptr.obj)
         if o.arr is not None:
             for i, c in enumerate(cells): s.arr_store(o, off + i, bv(s.cell_bv(c), 8) if type(c) is not int else c, 1)
